@@ -307,6 +307,27 @@ func panosDevices(host, display string, rules, addrs string) string {
 		`<address>` + addrs + `</address>` + panosTail
 }
 
+// panosTwoVsys builds device and target with two managed vsys.
+func panosTwoVsys(host string, rules2, addrs2, rules3, addrs3 string, device bool) string {
+	vs := func(name, rules, addrs string) string {
+		disp := ""
+		if device {
+			disp = `<display-name>netspoc ` + name + `</display-name>`
+		}
+		return `<entry name="` + name + `">` + disp + `<rulebase><security><rules>` + rules + `</rules></security></rulebase>` +
+			`<address>` + addrs + `</address></entry>`
+	}
+	body := `<entry name="localhost.localdomain">`
+	if device {
+		body += `<deviceconfig><system><hostname>` + host + `</hostname></system></deviceconfig>`
+	}
+	body += `<vsys>` + vs("vsys2", rules2, addrs2) + vs("vsys3", rules3, addrs3) + `</vsys></entry>`
+	if device {
+		return `<devices>` + body + `</devices>`
+	}
+	return `<config><devices>` + body + `</devices></config>` + "\n"
+}
+
 func panosSpoc(rules, addrs string) string {
 	return `<config><devices><entry name="localhost.localdomain"><vsys><entry name="vsys2">` +
 		`<rulebase><security><rules>` + rules + `</rules></security></rulebase>` +
@@ -384,6 +405,10 @@ func liveScenarios(typ string) []liveScenario {
 				map[string]string{"router": panosSpoc(panosRuleXML("r1", "IP_10.1.1.1", "NET_10.1.2.0_24")+panosRuleXML("r2", "IP_10.1.1.9", "NET_10.1.2.0_24"), a2)}},
 			{"replace-rule", "panos", map[string]string{"rules": panosRuleXML("r1", "IP_10.1.1.1", "NET_10.1.2.0_24") + panosRuleXML("r2", "NET_10.1.2.0_24", "IP_10.1.1.1"), "addrs": a},
 				map[string]string{"router": panosSpoc(panosRuleXML("r1", "IP_10.1.1.9", "NET_10.1.2.0_24"), a2)}},
+			{"two-vsys", "panos", map[string]string{"raw": panosTwoVsys("@HOSTNAME@", panosRuleXML("r1", "IP_10.1.1.1", "NET_10.1.2.0_24"), a,
+				panosRuleXML("r1", "NET_10.1.2.0_24", "IP_10.1.1.1"), a, true)},
+				map[string]string{"router": panosTwoVsys("", panosRuleXML("r1", "IP_10.1.1.1", "NET_10.1.2.0_24")+panosRuleXML("r2", "IP_10.1.1.9", "NET_10.1.2.0_24"), a2,
+					panosRuleXML("r1", "NET_10.1.2.0_24", "IP_10.1.1.1")+panosRuleXML("r2", "NET_10.1.2.0_24", "IP_10.1.1.9"), a2, false)}},
 			{"delete-all", "panos", map[string]string{"rules": panosRuleXML("r1", "IP_10.1.1.1", "NET_10.1.2.0_24"), "addrs": a},
 				map[string]string{"router": panosSpoc(panosRuleXML("r7", "NET_10.1.2.0_24", "IP_10.1.1.9"), a2)}},
 		}
@@ -427,6 +452,9 @@ func newLiveCase(sc liveScenario, frontEnd string, compare bool) *liveCase {
 		lc.HTTP = &sim.HTTPSpec{Type: "panos",
 			Members: []sim.HTTPMember{{User: "admin", Password: "secret", Key: "LUFRPT1key0123456789abcdef==", Hostname: "router"}},
 			Panos:   &sim.DumbPanos{Devices: panosDevices("@HOSTNAME@", "netspoc vsys2", sc.Device["rules"], sc.Device["addrs"])}}
+		if raw := sc.Device["raw"]; raw != "" {
+			lc.HTTP.Panos = &sim.DumbPanos{Devices: raw}
+		}
 	case "nsx":
 		d := &sim.DumbNsx{Pol: map[string]json.RawMessage{}}
 		if p := sc.Device["policies"]; p != "" {
